@@ -814,6 +814,15 @@ func (s *UploadStream) Resume() (int64, error) {
 		return 0, err
 	}
 
+	// forget the marker if the upload cannot be resumed: the stream stays
+	// pristine and a later abort does not touch the suspended upload
+	resumed := false
+	defer func() {
+		if !resumed {
+			s.marker = nil
+		}
+	}()
+
 	// check marker
 	if s.marker.State != BucketMarkerStateUploading {
 		return 0, fmt.Errorf("invalid marker state")
@@ -869,6 +878,7 @@ func (s *UploadStream) Resume() (int64, error) {
 	// set state (expected equals the count of valid chunks seen)
 	s.chunks = expected
 	s.length = length
+	resumed = true
 
 	return int64(length), nil
 }
